@@ -96,8 +96,8 @@ def edge (s : St) (t : Tid) (e : Ev) : String :=
              ++ (if s.trig src = some none then "-from-empty" else "-from-bound")
   | .idle, .callCp _ _ => "idle/cp"
   | .idle, .callRm id => if s.trig id = some none then "idle/rm-empty" else "idle/rm-bound"
-  | .rm _ (some l) false, .st _ _ _ => if s.line l then "rm/st-again" else "rm/st-first"
-  | .rm _ (some _) false, .xchg _ _ _ _ => "rm/xchg"
+  | .rm _ (some l) false, .st _ _ _ => if s.line l then "rm/trip-again" else "rm/trip-first"
+  | .rm _ (some l) false, .xchg _ _ _ _ => if s.line l then "rm/trip-again" else "rm/trip-first"
   | .rm _ held _, .retRm _ => if held.isNone then "rm/ret-empty" else "rm/ret-tripped"
   | .idle, .callRd _ => "idle/rd"
   | .idle, .callCk _ => "idle/ck"
@@ -108,8 +108,9 @@ def edge (s : St) (t : Tid) (e : Ev) : String :=
   | .idle, .prd _ v => if v = 0 then "idle/prd-unwritten" else "idle/prd"
   | _, _ => p
 
-/-- edges every quick run must exercise.  Accepted but not required (today's code never produces them):
-`rm/xchg` (an RMW instead of the store), `ck/reload-*` (a second load inside one `isTripped`),
+/-- edges every quick run must exercise (`rm/trip-*` = the tripping write, a store today; an exchange
+of `true` is accepted under the same key).  Accepted but not required (today's code never produces them):
+`ck/reload-*` (a second load inside one `isTripped`),
 `idle/prd-unwritten` (the generator only reads data that was written). -/
 def edges : List String :=
   ["idle/fork",
@@ -120,7 +121,7 @@ def edges : List String :=
    "idle/as-self", "idle/as-onto-bound-from-bound", "idle/as-onto-bound-from-empty",
    "idle/as-onto-empty-from-bound", "idle/as-onto-empty-from-empty", "as",
    "idle/cp", "cp",
-   "idle/rm-empty", "idle/rm-bound", "rm/st-first", "rm/st-again", "rm/ret-empty", "rm/ret-tripped",
+   "idle/rm-empty", "idle/rm-bound", "rm/trip-first", "rm/trip-again", "rm/ret-empty", "rm/ret-tripped",
    "idle/rd", "rd", "idle/ck", "ck/ld-tripped", "ck/ld-clear", "ck/ret-tripped", "ck/ret-clear",
    "idle/pwr", "idle/prd"]
 
